@@ -1259,3 +1259,91 @@ func init() {
 		c.Expect(2, n, "history stores truncated by Recover")
 	})
 }
+
+func init() {
+	extendProp("C09", "The edge walk never recurses into a value child unprepared: where unset descends into Children[key[pos]] of a branch, either the index is known to be below 16 (not the terminator slot) or unset handles a value node as its child argument instead of panicking.", nil, func(c *Ctx) {
+		c.Rule("PANIC/C09.valuechild")
+		f := c.Fn("trie", "unset")
+		if f == nil {
+			return
+		}
+		c.Funcs[f] = true
+		// does unset handle a valueNode passed as `child`?
+		handles := false
+		eachInstr(f, func(in ssa.Instruction) {
+			if ta, ok := in.(*ssa.TypeAssert); ok && namedName(ta.AssertedType) == "trie.valueNode" && Param("child")(ta.X) {
+				handles = true
+			}
+		})
+		n := 0
+		for _, s := range c.Calls(f, "trie.unset") {
+			call := s.Instr.(*ssa.Call)
+			ld, ok := call.Call.Args[1].(*ssa.UnOp)
+			if !ok {
+				continue
+			}
+			ia, ok := ld.X.(*ssa.IndexAddr)
+			if !ok {
+				continue
+			}
+			if fa, ok := ia.X.(*ssa.FieldAddr); !ok || fieldAddrName(fa) != "trie.fullNode.Children" {
+				continue
+			}
+			n++
+			if handles {
+				c.OK("branch-descent/"+fnName(f), s.Pos(), "unset handles a value node as child")
+				continue
+			}
+			idx := ia.Index
+			g := GCond("key[pos] < 16", f, Cmp(func(v ssa.Value) bool { return sameValue(stripConv(v), stripConv(idx)) }, token.LSS, func(v ssa.Value) bool { return constIs(v, 16) }))
+			c.Dom("branch-descent", f, []Site{s}, "descent into Children[key[pos]]", g)
+		}
+		c.Expect(1, n, "descents into a branch child in unset")
+	})
+}
+
+func init() {
+	extendProp("C08", "The proof of an empty trie verifies: Prove stores no node for an empty trie, so VerifyProof must accept the empty root without a node — some accepting return of VerifyProof lies behind rootHash == types.EmptyRootHash.", nil, func(c *Ctx) {
+		c.Rule("SIBLING/C08.emptyroot")
+		f := c.Fn("trie", "VerifyProof")
+		if f == nil {
+			return
+		}
+		c.Funcs[f] = true
+		isEmptyRoot := func(v ssa.Value) bool {
+			u, ok := v.(*ssa.UnOp)
+			if !ok {
+				return false
+			}
+			g, ok := u.X.(*ssa.Global)
+			return ok && g.Name() == "EmptyRootHash"
+		}
+		isRoot := func(v ssa.Value) bool {
+			if Param("rootHash")(v) {
+				return true
+			}
+			u, ok := v.(*ssa.UnOp)
+			if !ok {
+				return false
+			}
+			a, ok := u.X.(*ssa.Alloc)
+			return ok && (a.Comment == "rootHash" || a.Comment == "wantHash")
+		}
+		edges := map[Edge]bool{}
+		for e := range EdgesWhere(f, Cmp(isRoot, token.EQL, isEmptyRoot)) {
+			edges[e] = true
+		}
+		for e := range EdgesWhere(f, Cmp(isEmptyRoot, token.EQL, isRoot)) {
+			edges[e] = true
+		}
+		ok := false
+		for _, r := range c.SuccessReturns(f) {
+			for e := range edges {
+				if edgeDominates(e, r.Instr.Block()) {
+					ok = true
+				}
+			}
+		}
+		c.Check(ok, "empty-trie-accepted/"+fnName(f), f.Pos(), "the empty root is accepted without a proof node", "VerifyProof has no accepting path for the empty root: the (empty) proof that Prove produces for an empty trie is refused with `proof node 0 missing` instead of verifying every key as absent")
+	})
+}
